@@ -23,7 +23,7 @@ Shapes == << <<8, 4, 2>>, <<16, 4, 2>>, <<12, 4, 2>>, <<20, 4, 2>>, <<0, 4, 2>>,
 Schemes == <<0, 5, 129, 6, 1>>
 \* small sessions (every subset / permutation is enumerated over them)
 SmallP == (1..Len(Shapes)) \X (1..Len(Schemes)) \X {1, 2} \X {1, 2, 3} \X BOOLEAN \X {1, 2} \X {"full", "obt"}
-          \X {0, 1, 2, 3} \X BOOLEAN
+          \X {0, 1, 2, 3} \X BOOLEAN \X BOOLEAN      \* ... x the session ends with a close-session packet
 SmallB(p) ==
   LET sh == Shapes[p[1]] sc == Schemes[p[2]] pa == p[3] il == p[4] fti == p[5] cnt == p[6] md == p[7]
       ce == p[8] icenc == p[9]
@@ -33,7 +33,7 @@ SmallB(p) ==
     cfg |-> [scheme |-> 0, E |-> BigE, B |-> 8, interleave |-> il, queues |-> << <<0, 1>> >>, mode |-> md],
     objs |-> << [clen |-> sh[1], oti |-> Oti(sc, E, sh[3], IF sc = 0 THEN 0 ELSE pa, fti), count |-> cnt,
                  groups |-> <<"og">>, etag |-> "e1", cenc |-> ce, icenc |-> icenc, md5 |-> (pa = 1)] >>,
-    ops |-> << <<"add", 1>>, <<"publish">>, <<"drain">> >> ]
+    ops |-> << <<"add", 1>>, <<"publish">>, <<"drain">> >> \o (IF p[10] /\ il = 1 THEN << <<"close">> >> ELSE <<>>) ]
 
 \* clean-channel sessions: the configuration grid of C01
 Cencs == {0, 1, 2, 3}
@@ -285,7 +285,7 @@ ChanBuild(s, k) ==
 
 -----------------------------------------------------------------------------
 VARIABLES a, k
-Init == IF Mode = "sess" THEN a \in SessParams /\ k = 0
+Init == IF Mode = "sess" THEN a \in SessParams /\ k = 0 /\ (Family = "small" => (a[10] => a[4] = 1))    \* (no duplicate shapes)
         ELSE a \in ChanSessions /\ k \in ChanK(a)
 Next == UNCHANGED <<a, k>>
 Spec == Init /\ [][Next]_<<a, k>>
